@@ -520,9 +520,23 @@ class SubsampledSubarray(Subarray):
             if m == n
         ]
 
-        if subsampled_dimensions:
+        # Find the size one parameter array dimensions that were
+        # inserted by `SubsampledArray._conformed_parameters` for tie
+        # point dimensions that the parameter does not span: the
+        # single value applies to every interpolation subarea
+        broadcast_dimensions = [
+            i
+            for i, (m, n) in (enumerate(zip(parameter.shape, self.data.shape)))
+            if m == 1 and n != 1
+        ]
+
+        if subsampled_dimensions or broadcast_dimensions:
             indices = tuple(
-                tp_index if dim in subsampled_dimensions else subarea_index
+                (
+                    slice(None)
+                    if dim in broadcast_dimensions
+                    else tp_index if dim in subsampled_dimensions else subarea_index
+                )
                 for dim, (subarea_index, tp_index) in (
                     enumerate(zip(self.subarea_indices, self.indices))
                 )
